@@ -47,6 +47,9 @@ func (m *MCond) setKw(v Val) {
 	}
 }
 
+// flipNow mirrors World.flipText for the model (one world per process)
+var flipNow = map[string]string{}
+
 var opText = map[int64]string{1: "=", 2: "!=", 3: "<", 4: ">", 5: "<=", 6: ">="}
 
 func (m *MCond) setOp(v Val) {
@@ -59,6 +62,15 @@ func (m *MCond) setOp(v Val) {
 		t, ok := opText[v.I]
 		m.OpBad = !ok
 		m.OpTxt = t
+	case "fop":
+		// accepted if its text is non-empty at the time it is offered
+		if cur, ok := flipNow[v.S]; ok && cur == "" {
+			return
+		}
+		m.OpOK = true
+		m.OpBad = false
+		m.Op = "fop(" + v.S + ")"
+		m.OpTxt = "\x00" + v.S
 	case "uop":
 		ctx := "user"
 		if v.D == 1 {
@@ -343,7 +355,16 @@ func (m *MCond) render(w *World) (string, bool) {
 	if m.Opt["nopad"] {
 		pad = ""
 	}
-	s := m.Kw + pad + m.OpTxt + pad + ex
+	opTxt := m.OpTxt
+	if strings.HasPrefix(opTxt, "\x00") {
+		name := opTxt[1:]
+		if t, ok := w.flipText[name]; ok {
+			opTxt = t
+		} else {
+			opTxt = "~" + name
+		}
+	}
+	s := m.Kw + pad + opTxt + pad + ex
 	if m.Opt["paren"] {
 		s = "(" + pad + s + pad + ")"
 	}
